@@ -208,6 +208,28 @@ func OnlyOracles(e explore.Exec, oracles ...string) explore.Exec {
 	}
 }
 
+// OnlySigs keeps only violations whose signature contains one of the substrings
+// (plus panics, deadlocks, leaks and hangs).
+func OnlySigs(e explore.Exec, subs ...string) explore.Exec {
+	return func(c *explore.Chooser) *explore.Outcome {
+		out := e(c)
+		var vs []explore.Viol
+		for _, v := range out.Viols {
+			keep := v.Oracle == "panic" || v.Oracle == "deadlock" || v.Oracle == "leak" || v.Oracle == "hang"
+			for _, s := range subs {
+				if strings.Contains(v.Sig, s) {
+					keep = true
+				}
+			}
+			if keep {
+				vs = append(vs, v)
+			}
+		}
+		out.Viols = vs
+		return out
+	}
+}
+
 var (
 	kA = []byte("a")
 	kB = []byte("b")
